@@ -263,6 +263,11 @@ func ParseSliceHeader(nalu []byte, spsMap map[uint32]*SPS, ppsMap map[uint32]*PP
 					sh.NumRefIdxL1ActiveMinus1 = uint8(r.ReadExpGolomb())
 				}
 			}
+			if sh.NumRefIdxL0ActiveMinus1 > 14 || sh.NumRefIdxL1ActiveMinus1 > 14 {
+				// The list modification and weight table loops run up to these values (uint8 counters, <= comparison).
+				return sh, fmt.Errorf("num_ref_idx_active_minus1 out of range 0..14: l0=%d l1=%d",
+					sh.NumRefIdxL0ActiveMinus1, sh.NumRefIdxL1ActiveMinus1)
+			}
 
 			if pps.ListsModificationPresentFlag {
 				if pps.SccExtension != nil && pps.SccExtension.CurrPicRefEnabledFlag {
